@@ -59,7 +59,10 @@ def build(ctx, cfg):
     total = 0
     for b, n in enumerate(occ):
         for j in range(n):
-            fp = ctx.hashval(f"fp_{b}_{j}", capmax, 1, 2 ** fbits - 1)
+            if cfg.get("zero") and not t.keys:
+                fp = 0          # the empty-slot marker as a stored fingerprint (a key whose hash has zero low bits)
+            else:
+                fp = ctx.hashval(f"fp_{b}_{j}", capmax, 1, 2 ** fbits - 1)
             i1, i2 = f._indicies_from_fingerprint(fp)
             ctx.assume(ctx.or_(ctx.eq(i1, b), ctx.eq(i2, b)))
             for _, o, _c in t.keys:
